@@ -69,22 +69,40 @@ func concurrentRun(net *Net, seed int64, garbage bool) (ends []int, errs []strin
 			}
 		}(i)
 	}
-	// pollers
+	// pollers: several per party; each reads every entry of the answer it got, keeps the answer, asks again and checks
+	// that the earlier answer was not changed under its hands (the answer is the caller's own)
+	var aliased int64
 	for i := range net.Nodes {
-		rwg.Add(1)
-		go func(i int) {
-			defer rwg.Done()
-			r := rand.New(rand.NewSource(seed + int64(1000+i)))
-			for {
-				select {
-				case <-stop:
-					return
-				default:
-					_ = net.Nodes[i].Party.WaitingFor()
-					yield(r)
+		for k := 0; k < 3; k++ {
+			rwg.Add(1)
+			go func(i, k int) {
+				defer rwg.Done()
+				r := rand.New(rand.NewSource(seed + int64(1000+10*i+k)))
+				for {
+					select {
+					case <-stop:
+						return
+					default:
+						w := net.Nodes[i].Party.WaitingFor()
+						sum := 0
+						snap := make([]int, len(w))
+						for j, p := range w {
+							snap[j] = p.Index
+							sum += p.Index
+						}
+						yield(r)
+						_ = net.Nodes[i].Party.WaitingFor()
+						for j, p := range w {
+							if p.Index != snap[j] {
+								atomic.AddInt64(&aliased, 1)
+							}
+						}
+						_ = sum
+						yield(r)
+					}
 				}
-			}
-		}(i)
+			}(i, k)
+		}
 	}
 	if garbage {
 		for i := range net.Nodes {
@@ -146,6 +164,9 @@ func concurrentRun(net *Net, seed int64, garbage bool) (ends []int, errs []strin
 	for _, nd := range net.Nodes {
 		nd.Ends = append(nd.Ends, nd.drainEnd()...)
 		ends = append(ends, len(nd.Ends))
+	}
+	if n := atomic.LoadInt64(&aliased); n > 0 {
+		errs = append(errs, fmt.Sprintf("WaitingFor: an answer held by a caller was changed by a later call (%d times)", n))
 	}
 	return
 }
@@ -235,7 +256,7 @@ func c09Child(seedStr, thoroughStr string) {
 			net := p.build(seed*1000 + int64(k))
 			garbage := k%2 == 1
 			ends, errs := concurrentRun(net, seed*7919+int64(k), garbage)
-			ok := len(errs) == 0 || garbage
+			ok := len(errs) == 0 || garbage && !strings.Contains(strings.Join(errs, " "), "WaitingFor: an answer")
 			for _, e := range ends {
 				if e != 1 {
 					ok = false
@@ -327,7 +348,7 @@ func gatedStart(net *Net, victim int, seed int64, finish bool) (ok bool, detail 
 }
 
 func runC09(r *Run, rng *rand.Rand, thorough bool) {
-	r.Rule = "the harness is rebuilt with the Go race detector; every Start and every delivery of whole protocol runs is made from its own goroutine with seeded yields and sleeps, while other goroutines poll WaitingFor/String and (every second run) feed unparsable bytes; plus gated runs in which the deliveries a party received before its Start() are released at the same instant as that Start() (spin gate, seeded skew, hundreds of fresh parties), after which the run must complete like the sequential one; non-trivial = one completed concurrent run; direct assertions: no DATA RACE report, every party ends exactly once"
+	r.Rule = "the harness is rebuilt with the Go race detector; every Start and every delivery of whole protocol runs is made from its own goroutine with seeded yields and sleeps, while three goroutines per party poll WaitingFor (reading every entry of the answer, keeping it and checking that a later call does not change it) and (every second run) feed unparsable bytes; plus gated runs in which the deliveries a party received before its Start() are released at the same instant as that Start() (spin gate, seeded skew, hundreds of fresh parties), after which the run must complete like the sequential one; non-trivial = one completed concurrent run; direct assertions: no DATA RACE report, every party ends exactly once"
 	self, _ := os.Executable()
 	raceBin := os.Getenv("VH_RACE")
 	if raceBin == "" {
